@@ -50,12 +50,15 @@ AMP_QUERY_COMBOS = {
 AMP_SUBDOMAIN_PATTERN = r"|amp"
 AMP_SUFFIXES_RE = re.compile(r"(?:\.amp(?=\.html$)|\.amp/?$|/amp/?$)", re.I)
 
-IRRELEVANT_QUERY_RE = re.compile(IRRELEVANT_QUERY_PATTERN % r"", re.I)
-IRRELEVANT_SUBDOMAIN_RE = re.compile(IRRELEVANT_SUBDOMAIN_PATTERN % r"", re.I)
+# NOTE: ascii-only case folding and digits ("fbclıd" is not "fbclid", "www٣" not "www3")
+ASCII = getattr(re, "A", 0)
 
-IRRELEVANT_QUERY_AMP_RE = re.compile(IRRELEVANT_QUERY_PATTERN % AMP_QUERY_PATTERN, re.I)
+IRRELEVANT_QUERY_RE = re.compile(IRRELEVANT_QUERY_PATTERN % r"", re.I | ASCII)
+IRRELEVANT_SUBDOMAIN_RE = re.compile(IRRELEVANT_SUBDOMAIN_PATTERN % r"", re.I | ASCII)
+
+IRRELEVANT_QUERY_AMP_RE = re.compile(IRRELEVANT_QUERY_PATTERN % AMP_QUERY_PATTERN, re.I | ASCII)
 IRRELEVANT_SUBDOMAIN_AMP_RE = re.compile(
-    IRRELEVANT_SUBDOMAIN_PATTERN % AMP_SUBDOMAIN_PATTERN, re.I
+    IRRELEVANT_SUBDOMAIN_PATTERN % AMP_SUBDOMAIN_PATTERN, re.I | ASCII
 )
 
 IRRELEVANT_QUERY_COMBOS = {
